@@ -720,6 +720,17 @@ impl TypeChecker {
                             expr.span,
                         ));
                     }
+                    // Distinct newtypes are never interchangeable, whatever they wrap (book chapter 12: the swapped
+                    // `get_user_name(product_id)` call is the motivating example).
+                    if let (ResolvedType::Named(a), ResolvedType::Named(p)) = (arg_ty, param_ty) {
+                        if a != p
+                            && matches!(self.lookup_type_info(a), Some(TypeInfo::Newtype(_)))
+                            && matches!(self.lookup_type_info(p), Some(TypeInfo::Newtype(_)))
+                        {
+                            self.errors
+                                .push(errors::type_mismatch(&param_ty.to_string(), &arg_ty.to_string(), expr.span));
+                        }
+                    }
                 }
             }
         }
